@@ -31,9 +31,11 @@ use std::panic::AssertUnwindSafe;
 use std::rc::Rc;
 
 /// A solver that does not terminate is stopped by a panic of the call-back (recorded in `end.panic`).
-/// On the machine's side a problem with n nodes, m edges and a lattice of K elements needs at most
-/// n*K visits, i.e. n*K*m call-backs; the budget is far above that for every generated problem.
-const CALL_BUDGET: u64 = 20_000;
+/// A node is re-queued only when its value grew, i.e. at most (height of the lattice) <= 3 times, so a
+/// problem with m edges needs at most 4*m update_edge and 4*m merge calls (m <= 40): the budget is far
+/// above that for every generated problem.  Only the first LOG_CAP call-backs are recorded.
+const CALL_BUDGET: u64 = 5_000;
+const LOG_CAP: usize = 1_000;
 pub const BUDGET_MSG: &str = "harness: call-back budget exceeded (the solver does not terminate)";
 
 struct Ctx {
@@ -45,6 +47,12 @@ struct Ctx {
 }
 
 impl Ctx {
+    fn record(&self, ev: Value) {
+        let mut log = self.log.borrow_mut();
+        if log.len() < LOG_CAP {
+            log.push(ev);
+        }
+    }
     fn tick(&self) {
         self.calls.set(self.calls.get() + 1);
         if self.calls.get() > CALL_BUDGET {
@@ -64,12 +72,12 @@ impl Context for Ctx {
     fn merge(&self, a: &u8, b: &u8) -> u8 {
         self.tick();
         let out = self.join[*a as usize - 1][*b as usize - 1];
-        self.log.borrow_mut().push(json!({"ev": "merge", "a": *a, "b": *b, "out": out}));
+        self.record(json!({"ev": "merge", "a": *a, "b": *b, "out": out}));
         out
     }
     fn update_edge(&self, value: &u8, edge: EdgeIndex) -> Option<u8> {
         self.tick();
-        self.log.borrow_mut().push(json!({"ev": "edge", "e": edge.index() + 1, "in": *value}));
+        self.record(json!({"ev": "edge", "e": edge.index() + 1, "in": *value}));
         match self.tr[edge.index()][*value as usize - 1] {
             0 => None,
             v => Some(v),
